@@ -12,7 +12,7 @@ from __future__ import annotations
 
 import itertools
 
-from engine.absint import LO, TOP, Interp, Obj, Unsupported
+from engine.absint import HI, LO, TOP, Interp, Obj, Unsupported
 from engine.loader import AnalysisError
 
 # type -> how the validator recognises a well-typed value
@@ -51,18 +51,23 @@ def run_type(ctx, q, rule="R01.h"):
     kinds = ["none", "ok", "falsy", "bad", "callable"]
     if q == "param.parameters.CalendarDate":
         kinds.append("datetime")       # a datetime is a date by subclassing, but not a calendar date: rejected like any ill-typed value
+    has_length = hier.resolve(q, "_validate_length") is not None
+    if has_length:
+        kinds += ["wronglen", "empty-wronglen"]      # a tuple of the right type but not of the declared length (a non-empty one, and ())
     for allow_none, kind0 in itertools.product([True, False], kinds):
         # "falsy": a well-typed value whose truth value is False ('' / 0 / () / [] / {}): typed like any other
-        kind = "ok" if kind0 == "falsy" else kind0
+        kind = "ok" if kind0 in ("falsy", "wronglen", "empty-wronglen") else kind0
         val = None if kind == "none" else Obj("value_" + kind0, __iter__=[] if kind0 == "falsy" else [Obj("element")])
-        if kind0 == "falsy":
+        if kind0 in ("falsy", "empty-wronglen"):
             val.attrs["__bool__"] = False
         self_obj = Obj(name, allow_None=allow_none, bounds=None, inclusive_bounds=(True, True), softbounds=None, step=None,
                        regex=None, length=LO, item_type=None, is_instance=True, class_=Obj("declared_class"), allow_named=True,
                        _named_colors=[], check_on_set=True)
 
-        def hook(fn, args, kwargs, val=val, kind=kind):
+        def hook(fn, args, kwargs, val=val, kind=kind, kind0=kind0):
             subject = args[0] if args else None
+            if fn == "len" and subject is val and kind0 in ("wronglen", "empty-wronglen"):
+                return HI
             if fn == "callable" and (subject is val or subject is None):
                 return kind == "callable" or (kind == "ok" and TABLE[q] == "callable")
             if fn == "isinstance" and kind == "datetime" and subject is val and len(args) == 2:
@@ -94,7 +99,7 @@ def run_type(ctx, q, rule="R01.h"):
             raise AnalysisError("absint cannot interpret the validators of %s: %s -- R01.h cannot decide" % (name, e))
         n += 1
         want = allow_none if kind == "none" else (accepts_callables if kind == "callable" else kind == "ok")
-        if kind == "datetime":
+        if kind == "datetime" or kind0 in ("wronglen", "empty-wronglen"):
             want = False
         for o in outs:
             if o.imprecise:
@@ -107,7 +112,8 @@ def run_type(ctx, q, rule="R01.h"):
         an, kind, got = bad[0]
         what = {"none": "None", "ok": "a value of the declared type", "falsy": "an empty/zero (falsy) value of the declared type", "bad": "a value of a different type",
                 "callable": "a callable that is not of the declared type",
-                "datetime": "a datetime (a date by subclassing, but not a calendar date)"}[kind]
+                "datetime": "a datetime (a date by subclassing, but not a calendar date)",
+                "wronglen": "a tuple that is not of the declared length", "empty-wronglen": "the empty tuple (not of the declared length)"}[kind]
         ctx.fail(rule, f, f.node, "%s with allow_None=%s %s %s (specification: %s)" % (
             name, an, "accepts" if got else "rejects", what, "reject" if got else "accept"),
             key="%s::type-none-table::%s::%s" % (q, kind, "accept" if got else "reject"),
